@@ -1978,7 +1978,9 @@ pub(crate) async fn register_new_peer(
     let mut peers_guard = peers.write().await;
     let peer_info = PeerInfo {
         peer_id: peer_id.clone(),
-        addresses: vec![remote_addr.to_string()],
+        // Plain "ip:port", like the entries of outbound peers: this list is matched
+        // against and dialled as socket addresses (get_peer_id_by_address, connect_peer).
+        addresses: vec![remote_addr.socket_addr().to_string()],
         connected_at: tokio::time::Instant::now(),
         last_seen: tokio::time::Instant::now(),
         status: ConnectionStatus::Connected,
